@@ -4,6 +4,27 @@ VERIF = os.path.dirname(os.path.dirname(os.path.abspath(__file__)))
 ALL = ["C%02d" % i for i in range(1, 21)]
 
 CLAIMS = {
+ "C12": dict(
+    text="MathComp theorems over any ordered field, any number of nodes: a reference rule whose moments are exact up to degree d "
+         "gives, after the affine map the code applies, a rule that integrates every monomial of degree <= d exactly on [xl, xu] "
+         "for all xl, xu in any order (binomial identity proved); linearity in the integrand; sign change under swapped limits "
+         "for node-symmetric rules; additivity over adjacent intervals. The Gallina model of leggauss (fed with numpy's table) "
+         "and of the tan transform is run at IEEE binary64 bit for bit against the public quad: every abscissa and the value.",
+    note="Trusted: Coq kernel + vm_compute + PrimFloat; numpy's leggauss table (its moment defect <= 1e-13 up to degree 2n-1 is "
+         "measured with exact rationals - a test of the oracle, not a theorem); torch.tan/cos/atan; the change of variables for "
+         "infinite limits is cited calculus.",
+    technique="Coq/MathComp proof (bigop + binomial identity) + bit-exact float model correspondence",
+    ref="DESIGN.md section 7, C12"),
+ "C13": dict(
+    text="MathComp theorems for any derivation (any parametrisation, any order): the derivative of the quadrature is the same "
+         "quadrature of the differentiated integrand; tensors that do not influence the integrand get zero; the symbolic "
+         "derivative used by the executable gradient model is the derivative; the backward quadrature's options are the forward "
+         "options updated by bck_options. The gradient model (rule applied to d f/d theta, second order, Leibniz terms) is "
+         "evaluated by vm_compute and compared with autograd through the public quad to 2^-36; the option flow is compared exactly.",
+    note="Trusted: Coq kernel + vm_compute + PrimFloat; autograd's pull-back through the user function; harness. Number / infinite "
+         "limits, unused and object-held tensors, linear integrands at second order are implementation oracles.",
+    technique="Coq/MathComp proof under an arbitrary derivation + symbolic-derivative model correspondence + exact option-flow tie",
+    ref="DESIGN.md section 7, C13"),
  "C16": dict(
     text="Coq theorems: mh draws exactly nsamples samples after nburnout steps and accepts by the documented rule; mhcustom "
          "returns nsamples samples continuing from the burned-in state (any carrier, any step function); MathComp theorems over "
